@@ -293,17 +293,11 @@ func checkProgram(p prog) {
 				fail("symbol-reverse", fmt.Sprintf("Go block %q: reverse symbol lookup gives %v, want %v", clipS(n.Expression.Value), back, r))
 			}
 		case parser.HTMLTemplate:
-			if startLines[n.Range.From.Line] == 1 {
-				checkSym("templ", funcName(n.Expression.Value), n.Range)
-			}
+			checkSym("templ", funcName(n.Expression.Value), n.Range)
 		case parser.CSSTemplate:
-			if startLines[n.Range.From.Line] == 1 {
-				checkSym("css", n.Name, n.Range)
-			}
+			checkSym("css", n.Name, n.Range)
 		case parser.ScriptTemplate:
-			if startLines[n.Range.From.Line] == 1 {
-				checkSym("script", n.Name.Value, n.Range)
-			}
+			checkSym("script", n.Name.Value, n.Range)
 		}
 	}
 }
@@ -478,6 +472,19 @@ func main() {
 				}
 			}
 		}
+	}
+	// declarations that share a source line (a closing brace followed by the next declaration), and Go blocks that end
+	// in a line comment or are followed directly by a declaration
+	for _, src := range []string{
+		"package p\n\ntempl A(x string) {\n\t<p>{ x }</p>\n} templ B(x string) {\n\t<i>{ x }</i>\n}\n",
+		"package p\n\ntempl A(x string) { <p>{ x }</p> } templ B(x string) { <i>{ x }</i> }\n",
+		"package p\n\ncss c() {\n\tcolor: red;\n} templ B(x string) {\n\t<i class={ c() }>{ x }</i>\n}\n",
+		"package p\n\nscript s(a string) {\n\tconsole.log(a);\n} templ B(x string) {\n\t<i onclick={ s(x) }>{ x }</i>\n}\n",
+		"package p\n\nfunc helper(x string) string {\n\treturn x\n}\n\n// B renders x.\ntempl B(x string) {\n\t<i>{ helper(x) }</i>\n}\n\n// trailing comment\n",
+		"package p\n\nvar g = \"é\" // set once\ntempl B(x string) {\n\t<i>{ g + x }</i>\n}\n",
+		"package p\n\ntempl A(x string) {\n\t<p>{ x }</p>\n}\n// between\n\n// the two\ntempl B(x string) {\n\t<i>{ x }</i>\n}\n",
+	} {
+		progs = append(progs, prog{"declarations sharing a line / Go blocks ending in comments", src})
 	}
 	for _, p := range progs {
 		checkProgram(p)
